@@ -14,7 +14,7 @@ CONSTANTS
   AllowCRst = TRUE
   Planned = FALSE
   Timeout = 2
-  MaxNow = 3
+  MaxNow = 2
   DrainMode = "raw"
   Strict = FALSE
   WithServe = FALSE
